@@ -26,7 +26,7 @@ def run(chk, which="C10"):
     tier = chk.tier
     units = {u.type: u for u in model.scan_units() if u.type in ("Kelvins", "Celsius", "Fahrenheit")}
     n_tu = 16 if tier == "quick" else 64
-    per_tu = 20 if tier == "quick" else 80
+    per_tu = 30 if tier == "quick" else 80
     plans = []
     for ti in range(n_tu):
         rnd = core.rng("c10", tier, ti)
